@@ -87,6 +87,39 @@ def only_when_raise_or_guard(f, c, praise):
     return False
 
 
+def _follows(f, start, targets, barriers):
+    """some node of `targets` is executed after `start` before any node of `barriers` (walk over the CFG elements)"""
+    cfg = f.cfg
+    tids = {id(t) for t in targets}
+    bids = {id(b) for b in barriers}
+    w = cfg.where_enclosing(start)
+    if w is None:
+        return False
+    tw = {cfg.where_enclosing(t) for t in targets}
+    bw = {cfg.where_enclosing(b) for b in barriers}
+    seen, st = set(), [(w[0], w[1] + 1)]
+    while st:
+        bid, pos = st.pop()
+        if bid < 0 or bid not in cfg.blocks:
+            continue
+        blocked = False
+        for e in cfg.blocks[bid].elems:
+            if e.pos < pos:
+                continue
+            if (bid, e.pos) in tw:
+                return True
+            if (bid, e.pos) in bw:
+                blocked = True
+                break
+        if blocked:
+            continue
+        for s_ in cfg.blocks[bid].succ:
+            if s_ not in seen:
+                seen.add(s_)
+                st.append((s_, 0))
+    return False
+
+
 class _TileUnknown(Exception):
     pass
 
@@ -400,6 +433,7 @@ def run(ctx):
 
     # ---- wait predicates: lambdas passed to condition_variable::wait(lock, pred) in a held region
     predicate_lambdas = {}
+    wait_classes = []
     nwaits = 0
     for f in fns:
         for c in f.calls(lambda n: callee(n) in ("std::condition_variable::wait", "std::condition_variable_any::wait")):
@@ -421,10 +455,47 @@ def run(ctx):
                 R.incomplete("R-C17-3", inst, f.loc(c), "predicate body not found")
                 continue
             reads = {n["n"] for n in guarded_accesses(bodies[0])}
-            R.check(reads == GUARDED, "R-C17-3", inst + " predicate-fields", f.loc(c),
-                    "predicate reads exactly the published fields {m_stop, m_tasks}",
-                    "predicate reads %s, publishers write %s" % (sorted(reads), sorted(GUARDED)))
+            rets_ = [x for x in bodies[0].nodes() if x["k"] == "return" and x.get("c")]
+            wait_classes.append((f, c, reads, pp(rets_[0]["c"][0]) if len(rets_) == 1 else pp(bodies[0].body)))
+            if f.qn == "nano::parallel::worker_t::operator()":
+                # the worker sleeps until there is work or the pool stops: both published fields
+                R.check(reads == GUARDED, "R-C17-3", inst + " predicate-fields", f.loc(c),
+                        "predicate reads exactly the published fields {m_stop, m_tasks}",
+                        "predicate reads %s, publishers write %s" % (sorted(reads), sorted(GUARDED)))
+            else:
+                R.check(bool(reads) and reads <= GUARDED, "R-C17-3", inst + " predicate-fields", f.loc(c),
+                        "predicate reads only fields published under the queue lock",
+                        "predicate reads %s, the fields published under the lock are %s" % (sorted(reads), sorted(GUARDED)))
     R.floor("R-C17-3", nwaits, 1, "condition waits")
+    # waiters of different kinds on one condition variable: notify_one may wake a waiter whose predicate is still false - it goes back to sleep and
+    # the waiter the signal was meant for is never woken (lost wake-up; a destructor waiting for "queue empty" next to workers waiting for "work
+    # or stop" hangs). With more than one predicate every notify on that variable must be notify_all, and whatever makes a further predicate
+    # true (the queue draining) must be followed by a notify at all.
+    kinds = sorted({w[3] for w in wait_classes})
+    if len(kinds) > 1:
+        seen_n1 = set()
+        for f in fns:
+            for c in f.calls(lambda n: callee(n) == "std::condition_variable::notify_one"):
+                if f.loc(c) in seen_n1:
+                    continue
+                seen_n1.add(f.loc(c))
+                R.bad("R-C17-3", "%s notify_one@%s" % (f.qn, f.loc(c)), f.loc(c),
+                      "`%s` while threads wait on the condition variable with different predicates (%s): the one woken may be a waiter whose predicate is still false; "
+                      "it sleeps again and the intended waiter is never signalled - with tasks queued and an idle worker the pool's destructor / the workers hang" % (
+                          pp(c)[:50], "; ".join("`%s`" % k_[:50] for k_ in kinds)))
+        for f, c, reads, txt in wait_classes:
+            if f.qn == "nano::parallel::worker_t::operator()" or "m_tasks" not in reads:
+                continue
+            # the queue shrinks at pop_front / clear: a notify must follow it in the same function
+            shr = [(g, x) for g in fns for x in g.calls(lambda n: callee(n) in ("std::deque::pop_front", "std::deque::clear", "std::deque::pop_back", "std::deque::erase"))
+                   if pp(obj(x)).endswith("m_tasks")]
+            for g, x in shr:
+                nts = [y for y in g.calls(lambda n: callee(n) in ("std::condition_variable::notify_all", "std::condition_variable::notify_one"))]
+                wts = [y for y in g.calls(lambda n: callee(n) in ("std::condition_variable::wait", "std::condition_variable_any::wait"))]
+                okn = _follows(g, x, nts, wts)
+                R.check(okn, "R-C17-3", "%s drain-notify@%s" % (g.qn, g.loc(x)), g.loc(x),
+                        "the queue shrinking is followed by a notify (a thread waits for `%s`)" % txt[:40],
+                        "`%s` is never followed by a notify, but the wait at %s sleeps until `%s`" % (pp(x)[:40], f.loc(c), txt[:40]))
 
     # ---- R-C17-1 guarded-by
     nacc = 0
